@@ -86,6 +86,13 @@ def model(prog):
                 leftovers.append(float("inf"))
             elif x == "leave_reader":
                 leftovers.append(float("inf"))      # a selectable left registered with the reactor: junk, too
+            elif x == "leave_closing":
+                # a connection that finishes closing in the next reactor iteration.  (Only generated in programs whose
+                # stages all complete synchronously: the reactor does not iterate again before the run ends.)  The
+                # ForBrokenTwisted variant iterates the reactor twice before it looks for leftovers - clean; the plain
+                # one does not - the selectable is a leftover
+                if prog.get("runner") != "broken":
+                    leftovers.append(float("inf"))
         end = now + duration(b)
         if end == limit() and duration(b) > 0:
             ties = True
@@ -147,6 +154,20 @@ class _Sel:
         return "sel"
 
 
+class _ClosingSel(_Sel):
+    """A connection that is being shut down when the test ends: the next time the reactor looks at it, it
+    unregisters itself and defers one last bit of book-keeping."""
+    tvm_readable = True
+
+    def __init__(self, reactor):
+        self.reactor = reactor
+
+    def doRead(self):
+        self.tvm_readable = False
+        self.reactor.removeReader(self)
+        self.reactor.callLater(0, lambda: None)
+
+
 def build_case(prog, reactor, stagelog):
     import testtools
     from twisted.internet import defer
@@ -195,6 +216,8 @@ def build_case(prog, reactor, stagelog):
                 reactor.callLater(float(x.split(":")[1]), lambda: None)
             elif x == "leave_reader":
                 reactor.addReader(_Sel())
+            elif x == "leave_closing":
+                reactor.addReader(_ClosingSel(reactor))
             elif x == "leave_chain":
                 def rearm():
                     reactor.callLater(5.0, lambda: None)
@@ -640,6 +663,15 @@ def run(ctx):
                         ctx.execute("history", {"progs": [make([(s2, dict(b, dtype=dtype)) for s2 in slots
                                                                  if s2.startswith("cleanup")], 4.0, None, runner)]})
     ctx.note_space("a Deferred subclass / a gatherResults() DeferredList handed back: 2 runners x 5 stages x 2 x 5 endings", n)
+    n = 0
+    for runner in ("plain", "broken"):
+        for slot in slots:
+            for extra in ([], ["logerr_flush"]):
+                if ctx.mine():
+                    n += 1
+                    ctx.execute("history", {"progs": [make([(slot, {"end": "ret", "do": ["leave_closing"] + extra})], 2.0, None, runner)]})
+    ctx.note_space("a connection that finishes closing in the next reactor iteration, left by a stage of an all-synchronous "
+                   "test: 2 runners x 5 stages x 2", n)
     # two-test histories and random programs
     ctx.notes["random_cases"] = True
 
